@@ -125,13 +125,19 @@ def work_extra(payload, skip, report):
 # themselves computed, and values containing '=' that travel through a parameter into a positional argument.
 # (library as text, page, expected by the MediaWiki rules: the name=value split happens before anything is substituted)
 TEXT_LIB = {"one": "1", "kk": "k", "sp": " k ", "a": "[{{{1|}}}/{{{k|}}}]", "inner": "<{{{1|}}}>", "outer": "{{inner|{{{1}}}}}",
-            "outerk": "{{inner|1={{{1}}}}}", "fwd2": "{{outer|{{{1}}}}}", "kv": "k=v"}
+            "outerk": "{{inner|1={{{1}}}}}", "fwd2": "{{outer|{{{1}}}}}", "kv": "k=v",
+            # comments in bodies: one that stands alone on its line goes with the line, any other one is cut out in place
+            "cmA": "<!-- u -->[{{{1}}}]<!-- e -->\ntail", "cmB": "a<!-- x -->b\n<!-- alone -->\nc{{{1}}}", "cmC": "<!-- first -->\nbody{{{1}}}",
+            "cmD": "p <!-- 1 --> q{{{1}}} <!-- 2 -->\n<!-- 3 --> r", "cmE": "x{{{1}}}\n  <!-- indented alone -->  \ny",
+            "cmF": "<!-- a --><!-- b -->z{{{1}}}<!-- c -->\n<!-- d -->", "cmG": "s<!-- multi\nline -->t{{{1}}}<!-- e -->\nu"}
 TEXT_CASES = [
     ("{{a|{{one}}=x}}", "[x/]"), ("{{a|{{kk}}=y}}", "[/y]"), ("{{a|{{sp}}=y}}", "[/y]"), ("{{a| {{kk}} = y }}", "[/y]"),
     ("{{a|{{one}}=x|z}}", "[z/]"), ("{{a|z|{{one}}=x}}", "[x/]"), ("{{a|{{one}}{{one}}=x}}", "[/]"),
     ("{{inner|{{kv}}}}", "<k=v>"), ("{{outerk|1=x=y}}", "<x=y>"), ("{{inner|1=a=b}}", "<a=b>"),
     ("{{outer|1=x=y}}", "<x=y>"), ("{{outer|1=http://h/?q=1}}", "<http://h/?q=1>"), ("{{fwd2|1=x=y}}", "<x=y>"),
     ("{{outer|1= x=y }}", "<x=y>"),
+    ("{{cmA|X}}", "[X]\ntail"), ("{{cmB|X}}", "ab\ncX"), ("{{cmC|X}}", "bodyX"), ("{{cmD|X}}", "p  qX \n r"), ("{{cmE|X}}", "xX\ny"),
+    ("{{cmF|X}}", "zX\n"), ("{{cmG|X}}", "stX\nu"),
     # transclusion of pages outside the Template namespace follows the same includable-part rules
     ("{{:Mainpage}}", "ac"), ("{{Help:Hp}}", "h"), ("x{{:Mainpage}}y{{:Mainpage}}", "xacyac"),
 ]
